@@ -155,6 +155,13 @@ class _Super(object):
         self.after, self.cls = after, cls
 
 
+class _Wrapped(object):
+    """staticmethod(f) / classmethod(f) as a value (stored on a class by a class-creation hook)"""
+
+    def __init__(self, how: str, func):
+        self.how, self.func = how, func
+
+
 def _rc(s: str) -> str:
     from Bio.Seq import Seq
 
@@ -272,7 +279,7 @@ class Folder(object):
             a = fi.node.args
             params = [x.arg for x in a.posonlyargs + a.args]
             pos = list(args)
-            if fi.kind == "classmethod":
+            if fi.kind == "classmethod" or fi.name == "__init_subclass__":
                 pos = [cls] + pos
             elif fi.kind in ("method", "property"):
                 if instance is None:
@@ -315,6 +322,54 @@ class Folder(object):
             return fr.yielded if is_gen else None
         finally:
             self.depth -= 1
+
+    def apply_class_creation_hooks(self):
+        """Python runs the nearest __init_subclass__ of a new class's bases when the class is created; attributes it sets
+        on the class (`cls._layout = staticmethod(f)`, `cls._regex = None`) belong to the class as if its body had bound
+        them.  Evaluate those hooks for every class of the code base, bases first, and enter what they set into the class
+        table; a hook the folder cannot evaluate leaves the class untouched (reading such an attribute then stays an
+        analysis error)."""
+        p = self.p
+        if getattr(p, "_class_hooks_done", False):
+            return
+        p._class_hooks_done = True
+        classes = [ci for m in p.modules.values() for ci in m.classes.values()]
+        classes.sort(key=lambda c: len(p.mro(c)))
+        for ci in classes:
+            self.apply_hooks_to(ci)
+        p._class_hook = self.apply_hooks_to
+
+    def apply_hooks_to(self, ci: ClassInfo):
+        p = self.p
+        try:
+            owner, hook = p.class_attr_def(ci, "__init_subclass__", after=ci)
+        except AnalysisError:
+            return
+        if not isinstance(hook, FuncInfo):
+            return
+        saved = (getattr(self, "_hook_target", None), getattr(self, "_hook_overlay", None))
+        self._hook_target, self._hook_overlay = ci, {}
+        try:
+            self.call_func(hook, ci, [], {})
+        except (AnalysisError, Raises, RecursionError):
+            self._hook_target, self._hook_overlay = saved
+            return
+        overlay = self._hook_overlay
+        self._hook_target, self._hook_overlay = saved
+        entries = {}
+        for name, v in overlay.items():
+            if isinstance(v, _Wrapped) or (isinstance(v, _Bound) and v.kind == "func"):
+                inner = v.func if isinstance(v, _Wrapped) else v
+                fi0 = inner.target[0]
+                clone = FuncInfo(fi0.module, fi0.node, ci)
+                clone.decorators = [v.how] if isinstance(v, _Wrapped) else []
+                entries[name] = clone
+            elif v is None or isinstance(v, (str, int, bool, tuple, frozenset)) or v is NotImplemented:
+                entries[name] = Const(v)
+            else:
+                return
+        ci.attrs.update(entries)
+        ci._hooks_applied = True
 
     def structure(self, ci: ClassInfo) -> str:
         v = self.call_method(ci, "structure")
@@ -433,6 +488,34 @@ class _Frame(object):
             raise Raises(name, "%s:%d" % (self.m.relpath, st.lineno))
         if isinstance(st, (ast.Pass, ast.Assert)):
             return
+        if isinstance(st, ast.Try):
+            try:
+                try:
+                    self.block(st.body)
+                except Raises as r:
+                    handler = None
+                    for h in st.handlers:
+                        names = []
+                        if h.type is None:
+                            handler = h
+                            break
+                        for t in (h.type.elts if isinstance(h.type, ast.Tuple) else [h.type]):
+                            names.append(t.attr if isinstance(t, ast.Attribute) else t.id if isinstance(t, ast.Name) else "?")
+                        parents = {"KeyError": ("LookupError", "Exception"), "IndexError": ("LookupError", "Exception")}
+                        if r.exc_name in names or any(x in names for x in parents.get(r.exc_name, ("Exception",))):
+                            handler = h
+                            break
+                    if handler is None:
+                        raise
+                    if handler.name:
+                        self.env[handler.name] = r
+                    self.block(handler.body)
+                else:
+                    self.block(st.orelse)
+            finally:
+                if st.finalbody:
+                    self.block(st.finalbody)
+            return
         self.unsupported(st, "statement")
 
     def truth(self, v, node):
@@ -477,6 +560,8 @@ class _Frame(object):
             obj = self.expr(target.value)
             if isinstance(obj, FObj):
                 obj.attrs[target.attr] = v
+            elif isinstance(obj, ClassInfo) and obj is getattr(self.f, "_hook_target", None):
+                self.f._hook_overlay[target.attr] = v  # __init_subclass__ setting an attribute of the class being created
             else:
                 self.unsupported(target, "attribute store")
         else:
@@ -598,7 +683,7 @@ class _Frame(object):
             r = self.f.p.lookup(self.m.name, e.id)
             if r is not None:
                 return self._from_binding(r, e)
-        if e.id in ("str", "issubclass", "super", "isinstance", "format", "next", "iter", "hasattr", "getattr", "type", "filter", "map") or e.id in PURE_BUILTINS:
+        if e.id in ("str", "issubclass", "super", "isinstance", "format", "next", "iter", "hasattr", "getattr", "type", "filter", "map", "staticmethod", "classmethod") or e.id in PURE_BUILTINS:
             return _Bound("builtin", None, e.id)
         self.unsupported(e, "name")
 
@@ -651,6 +736,18 @@ class _Frame(object):
                 self.unsupported(e, "module attribute")
             return self._from_binding(r, e)
         if isinstance(base, ClassInfo):
+            # an attribute some __init_subclass__ on the MRO computes for every class when it is created is not what the
+            # class bodies say: that hook is not evaluated here
+            for c in self.f.p.mro(base):
+                isub = c.attrs.get("__init_subclass__") if isinstance(c, ClassInfo) else None
+                if getattr(base, "_hooks_applied", False):
+                    break
+                if isinstance(isub, FuncInfo):
+                    for n in ast.walk(isub.node):
+                        if isinstance(n, ast.Assign) and any(isinstance(t, ast.Attribute) and t.attr == a for t in n.targets) \
+                                and not (isinstance(n.value, ast.Constant) and n.value.value is None):
+                            raise AnalysisError("%s:%d: class attribute %s is computed per class by %s.__init_subclass__; class creation "
+                                                "hooks are not evaluated by the constant folder" % (isub.module.relpath, n.lineno, a, c.name))
             owner, raw = self.f.p.class_attr_def(base, a)
             if owner is None:
                 if a == "__name__":
@@ -663,6 +760,8 @@ class _Frame(object):
             return self.f._attr_value(owner, raw, base)
         if isinstance(base, _Super):
             owner, raw = self.f.p.class_attr_def(base.cls, a, after=base.after)
+            if owner is None and a == "__init_subclass__":
+                return _Partial("lambda", ast.parse("lambda: None", mode="eval").body, self, [], {})  # object.__init_subclass__
             if owner is None:
                 self.unsupported(e, "super attribute")
             return self.f._attr_value(owner, raw, base.cls)
@@ -945,6 +1044,9 @@ class _Frame(object):
         if isinstance(base, (str, tuple, list, dict)):
             try:
                 return base[idx]
+            except (KeyError, IndexError) as ex:
+                # what the program itself would see (a memo table probed with try / except KeyError)
+                raise Raises(type(ex).__name__, "%s:%d" % (self.m.relpath if self.m else "?", getattr(e, "lineno", 0)))
             except Exception:
                 self.unsupported(e, "subscript out of range / missing key")
         self.unsupported(e, "subscript")
@@ -1130,6 +1232,8 @@ class _Frame(object):
             return SeqVal(getattr(s, fn.name)())
         if fn.kind == "builtin":
             n = fn.name
+            if n in ("staticmethod", "classmethod") and len(args) == 1 and not kwargs and isinstance(args[0], _Bound) and args[0].kind == "func":
+                return _Wrapped(n, args[0])
             if n in ("str", "format") and len(args) == 1 and not kwargs:
                 return self._str(args[0], e)
             if n == "str" and not args:
